@@ -172,7 +172,7 @@ func checkFollowpos(c *Ctx, p *packages.Package) {
 			consultsNullable, usesLast, usesFirst := false, false, false
 			var offsets []string
 			for _, st := range cl.Body {
-				ast.Inspect(st, func(n ast.Node) bool {
+				deepInspectNode(p, st, 2, func(n ast.Node) bool {
 					call, ok := n.(*ast.CallExpr)
 					if !ok {
 						return true
@@ -230,7 +230,59 @@ func checkFollowpos(c *Ctx, p *packages.Package) {
 					}
 				}
 			}
-			c.Check("R10.2", "Star: every last position is followed by every first position of the operand", cl.Pos(), okStar, "the star case does not add firstPos(operand) to followpos of lastPos(operand)", "a*b must accept aab")
+			// or through a helper that adds `to` to the followpos of every position in `from`: helper(X.last(), X.first())
+			starUndecided := false
+			if !okStar {
+				for _, st := range cl.Body {
+					ast.Inspect(st, func(n ast.Node) bool {
+						call, ok := n.(*ast.CallExpr)
+						if !ok || len(call.Args) != 2 {
+							return true
+						}
+						fo, ok := objOf(info, call.Fun).(*types.Func)
+						if !ok || fo.Pkg() != p.Types {
+							return true
+						}
+						from, to := followsAdderParams(p, declOfFunc(p, fo))
+						if from < 0 {
+							return true
+						}
+						a0, ok0 := ast.Unparen(call.Args[from]).(*ast.CallExpr)
+						a1, ok1 := ast.Unparen(call.Args[to]).(*ast.CallExpr)
+						if !ok0 || !ok1 {
+							return true
+						}
+						s0, ok0 := a0.Fun.(*ast.SelectorExpr)
+						s1, ok1 := a1.Fun.(*ast.SelectorExpr)
+						if ok0 && ok1 && types.ExprString(s0.X) == types.ExprString(s1.X) {
+							if s0.Sel.Name == an.last && s1.Sel.Name == an.first {
+								okStar = true
+							}
+						}
+						return true
+					})
+				}
+				if !okStar {
+					// neither shape: is last/first of the operand mentioned at all?
+					mentions := 0
+					for _, st := range cl.Body {
+						deepInspectNode(p, st, 2, func(n ast.Node) bool {
+							if call, ok := n.(*ast.CallExpr); ok {
+								if sel, ok := call.Fun.(*ast.SelectorExpr); ok && (sel.Sel.Name == an.last || sel.Sel.Name == an.first) {
+									mentions++
+								}
+							}
+							return true
+						})
+					}
+					starUndecided = mentions >= 2
+				}
+			}
+			if starUndecided {
+				c.Undecided("R10.2", "Star: every last position is followed by every first position of the operand", cl.Pos(), "the star case uses lastpos and firstpos of its operand in a way this rule does not decide")
+			} else {
+				c.Check("R10.2", "Star: every last position is followed by every first position of the operand", cl.Pos(), okStar, "the star case does not add firstPos(operand) to followpos of lastPos(operand)", "a*b must accept aab")
+			}
 		}
 	}
 }
@@ -351,8 +403,17 @@ func checkLeafTable(c *Ctx, p *packages.Package) {
 			}
 			return true
 		})
-		c.Check("R10.3", "Concat.firstPos: union over the operands from the left up to the first non-nullable one", fd.Pos(), firstOK, "no left-to-right scan that stops after the first non-nullable operand")
-		c.Check("R10.3", "Concat.lastPos: union over the operands from the right up to the first non-nullable one", fd.Pos(), lastOK, "no right-to-left scan that stops after the first non-nullable operand")
+		for _, t := range []struct {
+			ok   bool
+			what string
+		}{{firstOK, "Concat.firstPos: union over the operands from the left up to the first non-nullable one"}, {lastOK, "Concat.lastPos: union over the operands from the right up to the first non-nullable one"}} {
+			if t.ok {
+				c.Pass("R10.3", t.what, fd.Pos(), "")
+			} else {
+				// another algorithm (one pass with bookkeeping, helper functions): not decided by this rule
+				c.Undecided("R10.3", t.what, fd.Pos(), "no scan loop over the operands that stops after the first non-nullable one was recognised")
+			}
+		}
 	} else {
 		c.Lost("R10.3", "the memoising helper of Concat")
 	}
@@ -423,11 +484,22 @@ func checkEndMarker10(c *Ctx, p *packages.Package) {
 	if fd := FuncDecl(p, "AST", "ToDFA"); fd != nil {
 		c.Analysed(funcKey(p, fd))
 		skips := false
-		ast.Inspect(fd.Body, func(n ast.Node) bool {
+		deepInspect(p, fd, 2, func(n ast.Node) bool {
 			if ifs, ok := n.(*ast.IfStmt); ok {
-				if b, ok := ast.Unparen(ifs.Cond).(*ast.BinaryExpr); ok && b.Op == token.NEQ {
-					if id, ok := ast.Unparen(b.Y).(*ast.Ident); ok && info.Uses[id] == marker {
-						skips = true
+				if b, ok := ast.Unparen(ifs.Cond).(*ast.BinaryExpr); ok && (b.Op == token.NEQ || b.Op == token.EQL) {
+					for _, side := range []ast.Expr{b.X, b.Y} {
+						if id, ok := ast.Unparen(side).(*ast.Ident); ok && info.Uses[id] == marker {
+							if b.Op == token.NEQ {
+								skips = true // the body runs for every symbol but the marker
+							} else {
+								// `if c == marker { continue }`
+								for _, st := range ifs.Body.List {
+									if br, ok := st.(*ast.BranchStmt); ok && br.Tok == token.CONTINUE {
+										skips = true
+									}
+								}
+							}
+						}
 					}
 				}
 			}
@@ -436,7 +508,7 @@ func checkEndMarker10(c *Ctx, p *packages.Package) {
 		c.Check("R10.5", "the end-marker is not an input symbol of the constructed DFA", fd.Pos(), skips, "ToDFA adds transitions on the end-marker")
 		// acceptance: states containing the marker's position
 		accepts := false
-		ast.Inspect(fd.Body, func(n ast.Node) bool {
+		deepInspect(p, fd, 2, func(n ast.Node) bool {
 			if ix, ok := n.(*ast.IndexExpr); ok {
 				if id, ok := ast.Unparen(ix.Index).(*ast.Ident); ok && info.Uses[id] == marker {
 					accepts = true
@@ -777,4 +849,55 @@ func memoHelperOf(p *packages.Package, recv string) *ast.FuncDecl {
 		})
 	})
 	return out
+}
+
+// followsAdderParams: fd is a helper `func (from, to)` whose body is `for _, p := range from { m[p] = append(m[p], to...) }`:
+// returns the parameter positions of from and to, or -1.
+func followsAdderParams(p *packages.Package, fd *ast.FuncDecl) (int, int) {
+	if fd == nil || fd.Body == nil || fd.Type.Params == nil {
+		return -1, -1
+	}
+	info := p.TypesInfo
+	var params []types.Object
+	for _, f := range fd.Type.Params.List {
+		for _, n := range f.Names {
+			params = append(params, info.Defs[n])
+		}
+	}
+	if len(params) != 2 || len(fd.Body.List) != 1 {
+		return -1, -1
+	}
+	rs, ok := fd.Body.List[0].(*ast.RangeStmt)
+	if !ok || len(rs.Body.List) != 1 {
+		return -1, -1
+	}
+	rid, ok := ast.Unparen(rs.X).(*ast.Ident)
+	if !ok {
+		return -1, -1
+	}
+	from := -1
+	for i, o := range params {
+		if info.Uses[rid] == o {
+			from = i
+		}
+	}
+	if from < 0 {
+		return -1, -1
+	}
+	as, ok := rs.Body.List[0].(*ast.AssignStmt)
+	if !ok || len(as.Rhs) != 1 {
+		return -1, -1
+	}
+	call, ok := ast.Unparen(as.Rhs[0]).(*ast.CallExpr)
+	if !ok || len(call.Args) != 2 || !call.Ellipsis.IsValid() {
+		return -1, -1
+	}
+	if id, ok := call.Fun.(*ast.Ident); !ok || id.Name != "append" {
+		return -1, -1
+	}
+	tid, ok := ast.Unparen(call.Args[1]).(*ast.Ident)
+	if !ok || info.Uses[tid] != params[1-from] {
+		return -1, -1
+	}
+	return from, 1 - from
 }
